@@ -3,29 +3,42 @@ C21 — HTTP request parsing does not depend on how input is segmented.
 
 Property theorems only.  Model: `SquidModel.Http1.Request` (RequestParser::doParse and everything below it, driven
 like ConnStateData::parseHttpRequest drives it); proofs: `SquidModel.Http1.SegLemmas`, `SquidModel.Http1.SegProof`.
-All statements are for every byte string, every list of segments, both parsing modes and every limit.
+All statements are for every byte string, every list of segments, both parsing modes.
 
-FULL STATEMENT (false of the pinned code — see the two `_counterexample` theorems):
+HEADLINE: `parse_segments_eq_oneShot` — the property at full strength for the code as it is now (`current`: the two
+repairs 37a6911 / 63b469c are in the tree; the translator probes the staged code for them every run and the proof
+uses the probed flags, so it stops checking if either repair is lost).  Its only hypothesis is on the configuration:
+`request_header_max_size ≥ maxMethodLength + 2` (= 34).  Without it the statement is false
+(`tiny_limit_counterexample`, known finding C21-tiny-limit: with a limit of a few bytes the 400/414 verdict of the
+length check depends on how much of the method has arrived):
 
-    theorem parse_segments_eq_oneShot (cfg : Cfg) (segs : List Bytes) :
-        incremental cfg segs = oneShot cfg segs.flatten
+    theorem parse_segments_eq_oneShot_all_limits (relaxed : Bool) (limit : Nat) (segs : List Bytes) :
+        incremental (current relaxed limit) segs = oneShot (current relaxed limit) segs.flatten      -- FALSE for limit < 34
 
-What is proved instead: `parse_segments_eq_oneShot_partial` (the statement outside two explicitly described input
-regions) and `parse_segments_eq_oneShot_fixed` (the full statement for the code with the two candidate repairs of
-notes/fixes/, whose presence the translator reads off the staged code: `Cfg.fixCr`, `Cfg.fixLine`).
+`parse_segments_eq_oneShot_partial` is the general form for any setting of the repair switches, with the input regions
+in which an unrepaired parser depends on segmentation as explicit hypotheses; the section "historical" keeps the
+counterexamples that were true of the tree before the repairs, as statements about the model with the switches off.
 -/
 import SquidModel.Http1.SegProof
 
 namespace SquidModel.C21
 open SquidModel.Http1 SquidModel.Gen.Http1Request
 
-/-- Excluded region 1 (finding C21-cr-split): the relaxed parser, and some segment boundary at which everything
+/-- The parser configuration of the tree as it is built: mode and limit are free, the two repair switches are what the
+translator probed in the staged code (`Gen.Http1Request.fixCr`, `fixLine`). -/
+def current (relaxed : Bool) (limit : Nat) : Cfg :=
+  { relaxed := relaxed, limit := limit, fixCr := fixCr, fixLine := fixLine }
+
+/-- the probes see both repairs in the tree -/
+theorem repairs_present : fixCr = true ∧ fixLine = true := by decide
+
+/-- Excluded region 1 (finding C21-cr-split, repaired): the relaxed parser, and some segment boundary at which everything
 delivered so far is empty lines followed by one CR, while the next byte to arrive is LF. -/
 def CrSplit (cfg : Cfg) (segs : List Bytes) : Prop :=
   ∃ k, cfg.relaxed = true ∧ cfg.fixCr = false ∧
     skipGarbage (segs.take k).flatten = [13] ∧ (segs.drop k).flatten.head? = some 10
 
-/-- Excluded region 2 (finding C21-line-limit): the first line of the input (after the leading empty lines the relaxed
+/-- Excluded region 2 (finding C21-line-limit, repaired): the first line of the input (after the leading empty lines the relaxed
 parser skips; up to but excluding its LF, or everything when there is no LF) is at least `limit` bytes long. -/
 def LineReachesLimit (cfg : Cfg) (bytes : Bytes) : Prop :=
   cfg.fixLine = false ∧ cfg.limit ≤ ((strip cfg bytes).takeWhile notLF).length
@@ -70,6 +83,20 @@ theorem parse_segments_eq_oneShot_fixed (cfg : Cfg) (hcr : cfg.fixCr = true) (hl
   · intro ⟨h, _⟩; simp [hln] at h
   · intro _; exact hlim
 
+/-- **C21 for the code as it is now.** For either parsing mode, any limit of at least 34 bytes, any byte string and any
+way of delivering it in increments, incremental parsing reports the same outcome as parsing it at once: need-more with
+the same consumed length, or accepted with the same method, target, version, header block and consumed length, or
+rejected with the same status. -/
+theorem parse_segments_eq_oneShot (relaxed : Bool) (limit : Nat) (hlim : maxMethodLength + 2 ≤ limit)
+    (segs : List Bytes) :
+    incremental (current relaxed limit) segs = oneShot (current relaxed limit) segs.flatten :=
+  parse_segments_eq_oneShot_fixed (current relaxed limit) repairs_present.1 repairs_present.2 hlim segs
+
+/-- ... in particular for every split point of every input. -/
+theorem parse_split_eq_oneShot (relaxed : Bool) (limit : Nat) (hlim : maxMethodLength + 2 ≤ limit) (a b : Bytes) :
+    incremental (current relaxed limit) [a, b] = oneShot (current relaxed limit) (a ++ b) := by
+  simpa using parse_segments_eq_oneShot relaxed limit hlim [a, b]
+
 /-- Corollary for every split point of every input. -/
 theorem parse_split_eq_oneShot_partial (cfg : Cfg) (a b : Bytes)
     (h1 : ¬(cfg.relaxed = true ∧ cfg.fixCr = false ∧ skipGarbage a = [13] ∧ b.head? = some 10))
@@ -83,10 +110,26 @@ theorem parse_split_eq_oneShot_partial (cfg : Cfg) (a b : Bytes)
     | 1 => exact h1 ⟨hr, hf, by simpa using hs, by simpa using hh⟩
     | k + 2 => simp at hh
 
-/-! ### the real code does depend on segmentation in both regions (re-confirmed on the real parser every run) -/
+/-! ### the limit hypothesis is needed (known finding C21-tiny-limit, re-confirmed on the real parser every run) -/
+
+/-- with a 2-byte limit the verdict of the length check (400 or 414) depends on how much of the method has arrived
+("PR" then "OPFIND /"), also in the repaired code. -/
+theorem tiny_limit_counterexample :
+    incremental (current false 2) [[80, 82], [79, 80, 70, 73, 78, 68, 32, 47]] = .rejected 400 ∧
+    oneShot (current false 2) [80, 82, 79, 80, 70, 73, 78, 68, 32, 47] = .rejected 414 := by
+  constructor <;> decide +kernel
+
+/-- the former witnesses now give equal outcomes (they stay in corpus/C21 as regression cases) -/
+example : incremental (current true 65536) [[13], [10, 71, 69, 84, 32, 47, 32, 72, 84, 84, 80, 47, 49, 46, 49, 13, 10, 13, 10]]
+    = oneShot (current true 65536) [13, 10, 71, 69, 84, 32, 47, 32, 72, 84, 84, 80, 47, 49, 46, 49, 13, 10, 13, 10] := by decide +kernel
+
+/-! ### historical: the model with the repair switches OFF (the tree before commits 37a6911 and 63b469c)
+
+These are statements about `{ fixCr := false, fixLine := false }`, i.e. NOT about the code as it is now; they record why
+the two hypotheses of `parse_segments_eq_oneShot_partial` exist and what the repairs removed. -/
 
 /-- "\r" then "\nGET / HTTP/1.1\r\n\r\n" (relaxed): 400 incrementally, accepted in one shot. -/
-theorem cr_split_counterexample :
+theorem unrepaired_cr_split_counterexample :
     incremental { relaxed := true, limit := 65536 } [[13], [10, 71, 69, 84, 32, 47, 32, 72, 84, 84, 80, 47, 49, 46, 49, 13, 10, 13, 10]]
       = .rejected 400 ∧
     oneShot { relaxed := true, limit := 65536 } [13, 10, 71, 69, 84, 32, 47, 32, 72, 84, 84, 80, 47, 49, 46, 49, 13, 10, 13, 10]
@@ -94,7 +137,7 @@ theorem cr_split_counterexample :
   constructor <;> decide +kernel
 
 /-- "GET /aaaaaa HTTP/1.1" then "\r\n\r\n" with a 20-byte limit (strict): 414 incrementally, 431 in one shot. -/
-theorem line_limit_counterexample :
+theorem unrepaired_line_limit_counterexample :
     incremental { relaxed := false, limit := 20 } [[71, 69, 84, 32, 47, 97, 97, 97, 97, 97, 97, 32, 72, 84, 84, 80, 47, 49, 46, 49], [13, 10, 13, 10]]
       = .rejected 414 ∧
     oneShot { relaxed := false, limit := 20 } [71, 69, 84, 32, 47, 97, 97, 97, 97, 97, 97, 32, 72, 84, 84, 80, 47, 49, 46, 49, 13, 10, 13, 10]
@@ -103,22 +146,13 @@ theorem line_limit_counterexample :
 
 /-- the relaxed parser even accepts in one shot what it rejects incrementally:
 "GET" + 20 spaces then "/ HTTP/1.1\n\n" with a 20-byte limit. -/
-theorem line_limit_accept_counterexample :
+theorem unrepaired_line_limit_accept_counterexample :
     incremental { relaxed := true, limit := 20 }
       [[71, 69, 84, 32, 32, 32, 32, 32, 32, 32, 32, 32, 32, 32, 32, 32, 32, 32, 32, 32, 32, 32, 32], [47, 32, 72, 84, 84, 80, 47, 49, 46, 49, 10, 10]]
       = .rejected 414 ∧
     oneShot { relaxed := true, limit := 20 }
       [71, 69, 84, 32, 32, 32, 32, 32, 32, 32, 32, 32, 32, 32, 32, 32, 32, 32, 32, 32, 32, 32, 32, 47, 32, 72, 84, 84, 80, 47, 49, 46, 49, 10, 10]
       = .accepted [71, 69, 84] true [47] 1 1 [10] 35 := by
-  constructor <;> decide +kernel
-
-/-- the hypothesis on the limit in `parse_segments_eq_oneShot_fixed` is needed: with a 2-byte limit the verdict of the
-length check (400 or 414) depends on how much of the method has arrived ("PR" then "OPFIND /"). -/
-theorem tiny_limit_counterexample :
-    incremental { relaxed := false, limit := 2, fixCr := true, fixLine := true } [[80, 82], [79, 80, 70, 73, 78, 68, 32, 47]]
-      = .rejected 400 ∧
-    oneShot { relaxed := false, limit := 2, fixCr := true, fixLine := true } [80, 82, 79, 80, 70, 73, 78, 68, 32, 47]
-      = .rejected 414 := by
   constructor <;> decide +kernel
 
 /-! ### non-vacuity -/
